@@ -227,7 +227,7 @@ void ext_case(Ctx &c) { case_impl(c, true); }
 Registrar reg(Prop{
     "C12",
     "Cases: node id 1..127, 1..4 TPDOs with mappings of 1..5 distinct objects of 1/2/3(24 bit of a 32-bit object)/4 bytes totalling <= 8 bytes, type in {1..240, 254, 255}, inhibit 0..8 ms (non-zero only for 254/255), event time 0..12 ms with inhibit == event ties produced on purpose, valid or invalid COB-ID; "
-    "histories of up to 200 ops: ticks, explicit COTPdoTrigPdo/COTPdoTrigObj, value changes of asynchronous and other objects through API/SDO/RPDO, SYNCs, NMT changes, SDO writes to the event time and to the COB-ID valid bit while running; mode random-retype adds: invalidate the COB-ID, rewrite transmission type and inhibit time - or the whole mapping (count := 0, new entries, count := k) -, re-validate (in PRE-OPERATIONAL or OPERATIONAL), and generates for each of the five objects whether it is stored directly in the entry and whether it carries the asynchronous-trigger flag. "
+    "histories of up to 200 ops: ticks, explicit COTPdoTrigPdo/COTPdoTrigObj, value changes of asynchronous and other objects through API/SDO/RPDO, SYNCs, NMT changes, SDO writes to the event time and to the COB-ID valid bit while running; mode random-retype adds: generated direct/asynchronous/node-id-relative flags of the mapped objects, invalidate the COB-ID, rewrite transmission type and inhibit time - or the whole mapping (count := 0, new entries, count := k) -, re-validate (in PRE-OPERATIONAL or OPERATIONAL), and generates for each of the five objects whether it is stored directly in the entry and whether it carries the asynchronous-trigger flag. "
     "Oracle: reference schedule: after every op and every single tick the multiset of (identifier, DLC, data) TPDO frames equals the model's (data = little-endian values of the mapped objects at emission; immediate emission on trigger unless inhibited; exactly one deferred emission at inhibit end; event timer restarted by every emission; type n => every n-th SYNC; nothing outside OPERATIONAL or with an invalid COB-ID; ties resolved inhibit first). "
     "Non-trivial: >= 1 emission deferred by the inhibit time or produced by the event timer or by the SYNC count. Distinct = distinct decoded choice sequence.",
     {Mode{"random", one_case, false, 600000, 8000000, 0, 0, 300, 500},
